@@ -101,6 +101,12 @@ func genC02(rng *rand.Rand, tier string) *C02Plan {
 			op.Secs = []int{1, 2, 5, 10, 60, 61, 3600, 3601, 86400 * 4}[rng.IntN(9)]
 		}
 		p.Ops = append(p.Ops, op)
+		if (op.Kind == "put" || op.Kind == "setabs" || op.Kind == "setrel") && op.Secs > 0 && op.Secs <= 3600 && rng.IntN(4) == 0 {
+			// boundary scenario: land exactly on the expiry second, maintain, read
+			p.Ops = append(p.Ops, C02Op{Kind: "advance", Secs: op.Secs},
+				C02Op{Kind: []string{"maintain", "maintainall"}[rng.IntN(2)]},
+				C02Op{Kind: []string{"get", "query"}[rng.IntN(2)], Key: op.Key, Prefix: rng.IntN(len(prefixPool))})
+		}
 	}
 	return p
 }
@@ -143,7 +149,7 @@ func (s *c02State) compareGet(key, when string) bool {
 	r, err := s.iface.Get(dbName + ":" + key)
 	m := s.model[key]
 	now := nowUnix()
-	exact := before == now // the clock's second did not change during the call: no tolerance at the expiry second
+	exact := before == now && (m == nil || !m.Fuzzy) // the clock's second did not change during the call: no tolerance at the expiry second
 	if m.visible(now) {
 		if err != nil {
 			s.rc.Fail("C02.get-missing", "get did not return a record that is stored, not deleted and not expired"+s.cfgNote()+s.bypassNote(), fmt.Sprintf("%s: key %q: %v (model %+v now=%d)", when, key, err, *m, now))
@@ -159,16 +165,22 @@ func (s *c02State) compareGet(key, when string) bool {
 			// a delayed write is stamped when it is flushed
 			c, mo = m.Created, m.Modified
 		}
+		if m.RelDelayed && e >= m.Expires-1 {
+			e = m.Expires // re-computed at flush time
+		}
 		if !near(c, m.Created) || !near(mo, m.Modified) || !(e == m.Expires || (e != 0 && m.Expires != 0 && near(e, m.Expires))) || (d > 0) != (m.Deleted > 0) {
 			s.rc.Fail("C02.get-wrong-meta", "get returned metadata other than the most recently stored"+s.cfgNote(),
 				fmt.Sprintf("%s: key %q: got created=%d modified=%d expires=%d deleted=%d want %d %d %d %d", when, key, c, mo, e, d, m.Created, m.Modified, m.Expires, m.Deleted))
 			return false
 		}
+		if e != m.Expires && !m.RelDelayed && s.p.Cache != 2 {
+			m.Expires, m.Fuzzy = e, false // within tolerance: the stored value is the one that decides visibility
+		}
 		return true
 	}
 	// lenient: a record whose expiry second is the current second may go either way - but only if the
 	// second changed while the call was in progress
-	if !exact && m != nil && m.Deleted == 0 && m.Expires > 0 && m.Expires >= now-2 && m.Expires <= now+2 {
+	if (!exact || (m != nil && m.RelDelayed)) && m.uncertain(now) {
 		return true
 	}
 	if err == nil {
@@ -225,7 +237,7 @@ func (s *c02State) expectedSet(prefix string, c *Cond) map[string]bool {
 		if !m.visible(now) || !strings.HasPrefix(k, prefix) {
 			continue
 		}
-		if m.Expires > 0 && m.Expires >= now-2 && m.Expires <= now+2 {
+		if m.uncertain(now) {
 			continue // boundary second: handled leniently by the caller
 		}
 		if c == nil || c.eval(m.F) {
@@ -239,7 +251,7 @@ func (s *c02State) boundary(prefix string) map[string]bool {
 	now := nowUnix()
 	out := map[string]bool{}
 	for k, m := range s.model {
-		if strings.HasPrefix(k, prefix) && m.Deleted == 0 && m.Expires > 0 && m.Expires >= now-2 && m.Expires <= now+2 {
+		if strings.HasPrefix(k, prefix) && m.uncertain(now) {
 			out[m.Nonce] = true
 		}
 	}
@@ -340,6 +352,9 @@ func execC02(p *C02Plan, rc *simkit.RunCtx) {
 				rc.Fail("C02.put-error", "put failed", fmt.Sprintf("%s: %v", when, err))
 				return
 			}
+			if p.AlwaysRel > 0 && nowUnix() != m.Created {
+				m.Fuzzy = true
+			}
 			s.model[key] = m
 		case "get":
 			if !s.compareGet(key, when) {
@@ -352,7 +367,7 @@ func execC02(p *C02Plan, rc *simkit.RunCtx) {
 				rc.Fail("C02.exists-error", "exists failed", err.Error())
 				return
 			}
-			if m != nil && m.Expires >= now-2 && m.Expires <= now+2 && m.Expires > 0 {
+			if m.uncertain(now) {
 				break
 			}
 			if ok != m.visible(now) {
@@ -362,7 +377,7 @@ func execC02(p *C02Plan, rc *simkit.RunCtx) {
 		case "delete":
 			err := s.iface.Delete(full)
 			m := s.model[key]
-			if m != nil && m.Expires > 0 && m.Expires >= now-2 && m.Expires <= now+2 && m.Deleted == 0 {
+			if m.uncertain(now) {
 				// boundary second: outcome open; resynchronise the model from the result
 				if err == nil {
 					m.Deleted = now
@@ -413,6 +428,9 @@ func execC02(p *C02Plan, rc *simkit.RunCtx) {
 				return
 			}
 			for i, k := range keys {
+				if p.AlwaysRel > 0 && nowUnix() != recs[i].Created {
+					recs[i].Fuzzy = true
+				}
 				s.model[k] = recs[i]
 			}
 			s.bypassed = true
@@ -452,9 +470,9 @@ func execC02(p *C02Plan, rc *simkit.RunCtx) {
 			}
 			err := s.iface.SetAbsoluteExpiry(full, t)
 			m := s.model[key]
-			if m != nil && m.Expires > 0 && m.Expires >= now-2 && m.Expires <= now+2 && m.Deleted == 0 {
+			if m.uncertain(now) {
 				if err == nil {
-					m.Expires, m.Modified = t, now
+					m.Expires, m.Modified, m.Fuzzy, m.RelDelayed = t, now, false, false
 				}
 				break
 			}
@@ -463,7 +481,7 @@ func execC02(p *C02Plan, rc *simkit.RunCtx) {
 					rc.Fail("C02.setexpiry-error", "setting the expiry of a visible record failed", fmt.Sprintf("%s: %v", when, err))
 					return
 				}
-				m.Expires, m.Modified = t, now
+				m.Expires, m.Modified, m.Fuzzy, m.RelDelayed = t, now, false, false
 			} else if err == nil {
 				rc.Fail("C02.setexpiry-absent", "setting the expiry of an absent record succeeded", when)
 				return
@@ -474,9 +492,25 @@ func execC02(p *C02Plan, rc *simkit.RunCtx) {
 			}
 			err := s.iface.SetRelativateExpiry(full, int64(op.Secs))
 			m := s.model[key]
-			if m != nil && m.Expires > 0 && m.Expires >= now-2 && m.Expires <= now+2 && m.Deleted == 0 {
+			applyRel := func() {
+				m.Fuzzy, m.RelDelayed = false, false
+				if op.Secs > 0 {
+					m.Expires = now + int64(op.Secs)
+					m.Fuzzy, m.RelDelayed = nowUnix() != now, p.Cache == 2
+				}
+				// every save through the interface applies its Always options last
+				switch {
+				case s.alwaysAbs > 0:
+					m.Expires, m.Fuzzy, m.RelDelayed = s.alwaysAbs, false, false
+				case p.AlwaysRel > 0:
+					m.Expires = now + int64(p.AlwaysRel)
+					m.Fuzzy, m.RelDelayed = nowUnix() != now, p.Cache == 2
+				}
+				m.Modified = now
+			}
+			if m.uncertain(now) {
 				if err == nil {
-					m.Expires, m.Modified = now+int64(op.Secs), now
+					applyRel()
 				}
 				break
 			}
@@ -485,17 +519,7 @@ func execC02(p *C02Plan, rc *simkit.RunCtx) {
 					rc.Fail("C02.setexpiry-error", "setting the expiry of a visible record failed", fmt.Sprintf("%s: %v", when, err))
 					return
 				}
-				if op.Secs > 0 {
-					m.Expires = now + int64(op.Secs)
-				}
-				// every save through the interface applies its Always options last
-				switch {
-				case s.alwaysAbs > 0:
-					m.Expires = s.alwaysAbs
-				case p.AlwaysRel > 0:
-					m.Expires = now + int64(p.AlwaysRel)
-				}
-				m.Modified = now
+				applyRel()
 			} else if err == nil {
 				rc.Fail("C02.setexpiry-absent", "setting the expiry of an absent record succeeded", when)
 				return
@@ -521,7 +545,7 @@ func execC02(p *C02Plan, rc *simkit.RunCtx) {
 			for k := range before {
 				if !after[k] {
 					m := s.model[k]
-					if m.visible(nowUnix()) && (nowUnix() == now || !(m.Expires > 0 && m.Expires <= nowUnix()+1)) {
+					if m.visible(nowUnix()) && !m.RelDelayed && ((nowUnix() == now && !m.Fuzzy) || !(m.Expires > 0 && m.Expires <= nowUnix()+1)) {
 						rc.Fail("C02.maintain-removed-live", "maintenance physically removed a record that is neither deleted nor expired", fmt.Sprintf("%s: key %q", when, k))
 						return
 					}
